@@ -461,6 +461,8 @@ class ExprMixin:
                 if isinstance(x, VNone) and h.kt[0] != 'opt':
                     return z3.BoolVal(False)
                 return z3.Select(h.mem, to_z3(x, h.kt))
+        if isinstance(cont, VObj) and cont.sort in getattr(self, 'member_sorts', {}):
+            return self.member_sorts[cont.sort](self, st, cont, x)
         if isinstance(cont, VObj) and cont.sort == 'Str' and isinstance(x, VObj):
             return self.uf('str_contains', [cont, x], T_BOOL).z
         raise Unsupported("membership in %r (line %s)" % (cont, getattr(node, 'lineno', '?')))
